@@ -266,6 +266,10 @@ func streamMsgReal(c *ctx) {
 				}
 				payload := c.r.bytes(plen)
 				ext, _ := genExt(c)
+				if ((alg >= 10 && alg <= 13) || (alg >= 30 && alg <= 33)) && (round == 0 || c.r.intn(4) == 0) {
+					// CCM switches to the 6-byte length encoding of the additional data at 0xff00 bytes
+					ext = c.r.bytes(pick(c.r, []int{65300, 65262, 65263, 66000}))
+				}
 				line := short(fmt.Sprintf("real|%s|alg=%d|prot=%s|unprot=%s|payload=%d bytes|ext=%x", kind, alg, describe(prot), describe(unprot), plen, ext))
 				var seen [][]byte
 				var data []byte
@@ -430,6 +434,37 @@ func streamMsgReal(c *ctx) {
 							d := append([]byte{}, data...)
 							d[pos] ^= 1 << uint(bit)
 							tamper(d, ext, k, "bitflip-all")
+						}
+					}
+				}
+				// every bit of the protected bucket
+				if pe, ok := topElems(data); ok && len(pe[0]) <= 64 {
+					off := bytes.Index(data, pe[0])
+					for pos := off; off >= 0 && pos < off+len(pe[0]); pos++ {
+						for bit := 0; bit < 8; bit++ {
+							d := append([]byte{}, data...)
+							d[pos] ^= 1 << uint(bit)
+							tamper(d, ext, k, "protected-bit")
+						}
+					}
+				}
+				// the signature / tag / ciphertext member cut to a prefix of itself (length 0, 1, half, all but one)
+				if pe, ok := topElems(data); ok {
+					idx := 3
+					if kind == "KEnc0" || kind == "KEnc" {
+						idx = 2
+					}
+					var auth []byte
+					if kind != "KSign" && cbor.Unmarshal(pe[idx], &auth) == nil && len(auth) > 1 {
+						for _, keep := range []int{0, 1, len(auth) / 2, len(auth) - 1} {
+							sp := append([]cbor.RawMessage{}, pe...)
+							sp[idx] = key.MustMarshalCBOR(auth[:keep])
+							tamper(joinElems(sp), ext, k, "auth-prefix")
+							if idx == 3 {
+								// ... together with another payload: nothing authenticates it
+								sp[2] = key.MustMarshalCBOR(append([]byte("forged"), payload...))
+								tamper(joinElems(sp), ext, k, "auth-prefix+payload")
+							}
 						}
 					}
 				}
